@@ -108,11 +108,12 @@ impl UserComponentDb {
         let mut scope_graph_builder = process_blueprint(bp, &mut aux, diagnostics);
         let imported_modules = resolve_imports(&aux, krate_collection.package_graph(), diagnostics);
 
+        // We can't look for annotated components without the docs of the imported packages.
         precompute_crate_docs(
             krate_collection,
             imported_modules.iter().map(|(i, _)| &i.package_id),
             diagnostics,
-        );
+        )?;
 
         register_imported_components(
             &imported_modules,
@@ -360,11 +361,14 @@ impl UserComponentDb {
 ///
 /// This is not *necessary*, but it can turn out to be a significant performance improvement
 /// for projects that pull in a lot of dependencies in the signature of their components.
+///
+/// If the computation fails, a diagnostic is pushed to the sink and an error is returned.
 fn precompute_crate_docs<'a, J>(
     krate_collection: &CrateCollection,
     imported_package_ids: J,
     diagnostics: &DiagnosticSink,
-) where
+) -> Result<(), ()>
+where
     J: Iterator<Item = &'a PackageId>,
 {
     let mut package_ids = IndexSet::new();
@@ -376,7 +380,9 @@ fn precompute_crate_docs<'a, J>(
             "I failed to compute the JSON documentation for one or more crates in the workspace.",
         );
         diagnostics.push(e.into_miette());
+        return Err(());
     }
+    Ok(())
 }
 
 impl std::ops::Index<UserComponentId> for UserComponentDb {
